@@ -82,7 +82,7 @@ def run(prop, tier, seed, replay=None):
         sims = sims[:1200] if tier == "quick" else sims
         for i, sc in enumerate(sims):
             sc["id"] = len(scen) + i
-            sc["geom"] = i % 2
+            sc.setdefault("geom", i % 2)
         p_sched.run_replays(v, prop, sims)
         v.cov["traces_validated_against_impl"] += len(sims)
     if not replay:
